@@ -32,7 +32,7 @@ func init() {
 	Register(&Prop{
 		ID:    "C05",
 		Title: "No sequence of valid transactions can make block processing panic",
-		Cases: func(t string) int { return tierN(t, 128, 2400) },
+		Cases: func(t string) int { return tierN(t, 128, 4000) },
 		Run:   runC05,
 		Rule: "case = one history: a scaffold reaching files with provers, gauges, plans, forms, names, bids, listings, file-tree entries, feeds and notifications, then 4-7 bursts of 8-16 transactions each; a transaction is either a semantically valid template message with 1-2 fields replaced from boundary / hostile pools (numeric: 0, +-1, 2^31, 2^62, MaxInt64, MinInt64, products that overflow; strings: separators, unicode, empty, very long, look-alike addresses; bytes; coins) or a type-directed random message of a type drawn round-robin from all registered custom message types; only transactions that pass ValidateBasic are delivered (that count is `valid_txs`); creators occasionally spell their address in upper case; 45% of the histories also pass 1-3 per burst governance parameter-change proposals with boundary values for the custom modules' parameters (real MsgSubmitProposal + MsgVote); after each burst honest provers prove and the chain runs through >= 2 reward heights with time jumps past gauge ends; " +
 			"oracle: recover() around BeginBlock, EndBlock and Commit of the assembled app (a panic inside DeliverTx is recovered by the SDK and is not a violation); " +
